@@ -116,8 +116,11 @@ func (iv *Value) ValueFrom(value any) {
 		}
 	case ItemTypeFloat:
 		switch vv := value.(type) {
-		case float64, float32:
-			iv.ItemValue = fmt.Sprintf("%f", vv)
+		case float64:
+			// the shortest text that parses back to the same value ("%f" keeps six decimals only)
+			iv.ItemValue = strconv.FormatFloat(vv, 'g', -1, 64)
+		case float32:
+			iv.ItemValue = strconv.FormatFloat(float64(vv), 'g', -1, 64)
 		case string:
 			_, err := strconv.ParseFloat(vv, 64)
 			if err != nil {
